@@ -1483,7 +1483,56 @@ func oracleC06(r *rng, n int, st *oracleStats) []oracleFailure {
 			st.Dist["scenario:identical"]++
 		}
 	}
+	// retention: the last commit before Close trims the change log (small size
+	// limits, events older than the current second); the reloaded change log is
+	// the trimmed one that was visible, not the one the transaction started with
+	for k := 0; k < 1+n/20000 && k < 4; k++ {
+		st.Dist["retention-scenarios"]++
+		if sig, what := reloadRetentionScenario(r); sig != "" {
+			fail(oracleFailure{Property: "C06", Signature: sig, What: what})
+		}
+	}
 	return fails
+}
+
+func reloadRetentionScenario(r *rng) (string, string) {
+	dir, err := os.MkdirTemp("", "verif-reload-ret-")
+	if err != nil {
+		return "", ""
+	}
+	defer os.RemoveAll(dir)
+	path := filepath.Join(dir, "store.bson")
+	opts := lungo.Options{Store: lungo.NewFileStore(path, 0666), MinOplogSize: 1 + r.intn(2), MaxOplogSize: 3, MinOplogAge: time.Nanosecond, MaxOplogAge: time.Nanosecond}
+	engine, err := lungo.CreateEngine(opts)
+	if err != nil {
+		return "C06:reload-error", "CreateEngine failed: " + err.Error()
+	}
+	coll := lungo.NewClient(engine).Database("db").Collection("c")
+	ctx := context.Background()
+	for k := 0; k < 6+r.intn(4); k++ {
+		coll.InsertOne(ctx, bson.D{{Key: "_id", Value: int32(k)}})
+	}
+	time.Sleep(1100 * time.Millisecond)
+	coll.UpdateOne(ctx, bson.D{{Key: "_id", Value: int32(0)}}, bson.D{{Key: "$set", Value: bson.D{{Key: "v", Value: int32(1)}}}})
+	visible := fsDumpFull(engine.Catalog())
+	events := 0
+	if o := engine.Catalog().Namespaces[lungo.Oplog]; o != nil {
+		events = len(o.Documents.List)
+	}
+	engine.Close()
+	opts.Store = lungo.NewFileStore(path, 0666)
+	engine2, err := lungo.CreateEngine(opts)
+	if err != nil {
+		return "C06:reload-error", "reopening the store failed: " + err.Error()
+	}
+	defer engine2.Close()
+	if events > 4 {
+		return "", "" // nothing was trimmed (clock did not advance): scenario without force
+	}
+	if reloaded := fsDumpFull(engine2.Catalog()); reloaded != visible {
+		return "C06:reload-differs-after-trim", fmt.Sprintf("after a commit that trimmed the change log (%d events visible) the reloaded database differs from the visible one", events)
+	}
+	return "", ""
 }
 
 // normalise maps a generated value to what the driver API stores: lungo passes
